@@ -243,11 +243,44 @@ def _run(ctx, T):
                                "variant_by_source": static_variant}
     ctx.obligation("handler skeletons regenerated from back/vmexec.c, libvm.c, vmffi.c agree with shape_of",
                    True, None)
+    # A skeleton mismatch is held back until the dynamic tie has run: the source text of a handler can
+    # change shape harmlessly (e.g. a check that can never fire is dropped).  suspects: (opcode
+    # number, builtin id | None) -> mismatch; the stack search below adds, for every program that
+    # executes a suspect, the stack sizes at which it runs at sp = size-1 and size-2.
+    suspects = {}
     for m in mism:
-        # the table is a tie, not the property: a handler whose source no longer has the shape the
-        # model gives it is a broken correspondence; the searches below are the hunt for an input
-        ctx.correspondence_broken("handler-skeleton:%s:%s" % (m.get("handler"), m["opcode"]), m)
-    skeleton_suspects = [m["opcode"] for m in mism]
+        nm = m["opcode"]
+        mb = re.match(r"BUILD_IN (\d+)", nm)
+        if mb and "BYTECODE_BUILD_IN" in T.names:
+            suspects[(T.names.index("BYTECODE_BUILD_IN"), int(mb.group(1)))] = m
+        elif nm in T.names:
+            suspects[(T.names.index(nm), None)] = m
+        else:
+            ctx.correspondence_broken("handler-skeleton:%s:%s" % (m.get("handler"), nm), m)
+    op_build_in = T.names.index("BYTECODE_BUILD_IN") if "BYTECODE_BUILD_IN" in T.names else -1
+
+    def suspect_steps(dump, trace):
+        """suspect -> [(step, sp before)] along the trace"""
+        code = []
+        with open(dump) as f:
+            for l in f:
+                if l.startswith("I "):
+                    q = l.split()
+                    code.append((int(q[2]), int(q[3])))
+        out = {}
+        k = 0
+        with open(trace) as f:
+            for l in f:
+                if l.startswith("t "):
+                    q = l.split()
+                    ip, sp = int(q[1]), int(q[2])
+                    if 0 <= ip < len(code):
+                        op, w0 = code[ip]
+                        key = (op, w0 if op == op_build_in else None)
+                        if key in suspects:
+                            out.setdefault(key, []).append((k, sp))
+                    k += 1
+        return out
 
     # ---- corpus witnesses: traces under a big stack -----------------------------------------------
     def prepare(pid, path, stdin):
@@ -404,9 +437,14 @@ def _run(ctx, T):
             base |= {rng.randrange(33, max(34, peak - 7)) for _ in range(rnd_sizes)}
             sizes = sorted(base)
             res["exhaustive"] = False
+        susp = suspect_steps(dump, trace) if suspects else {}
+        for key, lst in susp.items():
+            for k, sp in lst[:12] + lst[-4:]:
+                sizes = sorted(set(sizes) | {sp + 1, sp + 2})
         pr = T.predict(dump, trace, bits, sizes)
         if pr["consistent"] is not True:
             res["events"].append(("broken", "plan-table-vs-trace", {"program": src, "detail": pr["consistent"] or pr["stderr"]}))
+            res["suspect"] = {key: {"executed": len(lst), "boundary_runs": 0, "clean": False} for key, lst in susp.items()}
             return res
         D = pr["demand"]
         res["demand"], res["peak"], res["steps"] = D, peak, ref["steps"]
@@ -512,6 +550,16 @@ def _run(ctx, T):
             res["bisect"] = hi
             if hi != D and not any(ev[0] == "violation" for ev in res["events"]):
                 res["events"].append(("broken", "demand-bisect", {"program": src, "model_demand": D, "bisected": hi}))
+        clean = not any(ev[0] in ("broken", "violation") for ev in res["events"]) and "truncated_after" not in res
+        res["suspect"] = {}
+        for key, lst in susp.items():
+            hits = 0
+            for k, sp in lst:
+                for S in (sp + 1, sp + 2):
+                    e = pr["pred"].get(S)
+                    if e is not None and S in got and (e[0] == "done" or (e[0] == "limit" and e[1] >= k)):
+                        hits += 1           # the real run at size S dispatched this step with sp >= S-2
+            res["suspect"][key] = {"executed": len(lst), "boundary_runs": hits, "clean": clean}
         return res
 
     results = vmcheck.pmap(stack_case, P, workers=16)
@@ -644,10 +692,26 @@ def _run(ctx, T):
                           {"program": open(w["src"]).read(), "mem_size": r["mem"], "stack_size": r["stack"], "observed": brief(r),
                            "replay": "limrun %s %d:%d   (or: never -m %d -s %d -f <program>)" % (w["src"], r["mem"], r["stack"], r["mem"], r["stack"])})
 
-    # a skeleton mismatch with no failing input found by the search stays a broken obligation (bin/check
-    # prints `no-failing-input-found`); say which opcodes the search aimed at
-    if skeleton_suspects:
-        ctx.notes["skeleton_suspects_searched"] = skeleton_suspects
+    # skeleton mismatches: harmless when the opcode was executed at the top of the stack (sp = size-1 /
+    # size-2) in real runs and every prediction of every program executing it matched; otherwise the
+    # correspondence is reported broken (bin/check prints `no-failing-input-found` if no input failed)
+    for key, m in suspects.items():
+        executed = boundary = progs_n = 0
+        dirty = []
+        for res in results:
+            st = res.get("suspect", {}).get(key)
+            if st:
+                progs_n += 1
+                executed += st["executed"]
+                boundary += st["boundary_runs"]
+                if not st["clean"]:
+                    dirty.append(res["id"])
+        info = dict(m, programs_executing_it=progs_n, executions_traced=executed,
+                    real_runs_with_it_at_sp_ge_size_minus_2=boundary, programs_with_failed_predictions=dirty[:10])
+        if boundary > 0 and not dirty:
+            ctx.notes.setdefault("skeleton_mismatch_dynamically_confirmed_harmless", []).append(info)
+        else:
+            ctx.correspondence_broken("handler-skeleton:%s:%s" % (m.get("handler"), m["opcode"]), info)
 
     ctx.assumptions.append("heap size 0 / vm_new(0, ...) is outside the configured sizes: main.c maps -m 0 and -s 0 to the "
                            "defaults (5000 cells, 200 slots); heap sizes are tried from 1 (one cell = only nil: every program "
